@@ -3,7 +3,7 @@ import Exetera.Lemmas.WhileFuel
 import Exetera.Lemmas.MapValidBasic
 /-! C12, `ordered_map_valid_stream_old` with NC12a repaired: on EVERY input (any map — in range or not, ordered or not) and
     every chunk size ≥ 1 the run ends in `.ok` or in an error other than `outOfFuel`, within the budget `|map| + |data| + 1`. -/
-namespace Exetera.JoinOld
+namespace Exetera.JoinOld.Term
 open Exetera
 
 theorem partialOldMapFrom_not_fuel {α} (d : Nat) (dfc : List α) (inv : Int) (zero : α) (cap : Nat) :
@@ -103,9 +103,9 @@ theorem mapOldBodyR_step {α} (data : List α) (map_ : List Int) (inv : Int) (cs
           simp only [mapMu]
           omega
 
-end Exetera.JoinOld
+end Exetera.JoinOld.Term
 
-namespace Exetera.JoinOld
+namespace Exetera.JoinOld.Term
 open Exetera
 
 /-- **the repaired legacy map stream never runs out of fuel**: every input, every chunk size ≥ 1 -/
@@ -134,4 +134,4 @@ theorem mapValidStreamOldR_not_fuel {α} (data : List α) (map_ : List Int) (inv
     simp only [Except.error.injEq] at h'
     exact he h'
 
-end Exetera.JoinOld
+end Exetera.JoinOld.Term
